@@ -386,7 +386,7 @@ func (h *Header) SetExtension(id uint8, payload []byte) error { //nolint:gocogni
 			if id < 1 || id > 14 {
 				return fmt.Errorf("%w actual(%d)", errRFC8285OneByteHeaderIDRange, id)
 			}
-			if len(payload) > 16 {
+			if len(payload) == 0 || len(payload) > 16 {
 				return fmt.Errorf("%w actual(%d)", errRFC8285OneByteHeaderSize, len(payload))
 			}
 		// RFC 8285 RTP Two Byte Header Extension
